@@ -292,6 +292,26 @@ def check_stepper(fx, R, cq, stepper, restart):
         inst = '%s::%s:%s/%s' % (cname, stepper, sumf, contf)
         cf, cr = fill.fields.get(cp_), repl.fields.get(cp_)
         sf, sr = fill.fields.get(sp_), repl.fields.get(sp_)
+        # the reader names the entry value of the total after its declared type: use its symbol, whatever its assumptions
+        for v_ in (sf, sr):
+            for y_ in (v_.free_symbols if isinstance(v_, sp.Basic) else ()):
+                if y_.name == 'this.' + sumf:
+                    S0 = y_
+        # S4 (width / kind of the running totals): the statement is about exact integer sums with no accumulated drift
+        rec_ = fx.records.get(cq) or {}
+        for q_ in [cq] + list(rec_.get('bases') or []):
+            fl_ = next((f_ for f_ in (fx.records.get(q_) or {}).get('fields', []) if f_['name'] == sumf), None)
+            if fl_ is not None:
+                t_ = fl_.get('t') or {}
+                if t_.get('c') == 'fp':
+                    R.violated('S4', '%s:%s:floating-total' % (cname, sumf), 'the running total %s is a %s: once it passes 2^53 (|value|/precision up to 1e8, squares up to 1e16) every add / subtract of update() is rounded, '
+                               'and the residue of "large + small - large" never cancels - it stays in the total until reset(), so after large samples have left the window the statistics of the small ones are wrong '
+                               '(the statement: exactly the last W samples, no accumulated drift)' % (sumf, t_.get('s')), fx.rel(fstep['loc']), 'E-INT')
+                elif t_.get('c') == 'int' and (t_.get('bits') or 0) < 64:
+                    R.violated('S4', '%s:%s:narrow-total' % (cname, sumf), 'the running total %s is a %s (%s bits): W * 1e8%s exceeds it' % (sumf, t_.get('s'), t_.get('bits'), '^2' if power == 2 else ''), fx.rel(fstep['loc']), 'E-INT')
+                else:
+                    R.holds('S4', '%s:%s:integer-total' % (cname, sumf), '%s' % t_.get('s'), fx.rel(fstep['loc']), 'E-INT')
+                break
         if not isinstance(cf, sym.Cont) or not isinstance(cr, sym.Cont) or sf is None or sr is None:
             R.undecided('S2', inst, 'total or container not found in the final state')
             continue
